@@ -297,6 +297,8 @@ def named_mechanism(cls, key, small, mode, detail=None):
             return "DIFF/Name.id/identifier-not-NFKC-normalised"
     if cls == "REJECT" and surface and isinstance(root, (ast.Compare, ast.AugAssign, ast.BinOp)) and re.search(r"[\w\)\]\}'\"](>=|>>=)", text):
         return "REJECT/surface/redirect-like-operator-glued-to-left-operand"
+    if cls == "DIFF" and k2.startswith("node List/ListComp") and any(isinstance(n, ast.List) and len(n.elts) == 1 and isinstance(n.elts[0], ast.GeneratorExp) for n in nodes):
+        return "DIFF/List.elts/parenthesised-generator-as-the-only-element-becomes-a-ListComp"
     if cls == "DIFF" and k1 == "Subscript.slice" and k2.startswith("node Tuple/") and isinstance(root, ast.Subscript) and isinstance(root.slice, ast.Tuple) and len(root.slice.elts) == 1:
         return "DIFF/Subscript.slice/one-element-tuple-index"
     if cls == "DIFF" and k1 in ("For.target", "AsyncFor.target", "comprehension.target") and k2.startswith("node Tuple/"):
@@ -429,7 +431,7 @@ def directed_cases():
         "{a, *b}\n", "{*a}\n", "{*a, *b}\n", "[a, *b]\n", "(a, *b)\n", "{**a, 'k': 1}\n",
         # witnesses of findings first seen by the thorough tier
         "(x or[])\n", "x and(y)\n", "x or-1\n", "type x=x and-x\n", "(x[x:=0])\n", "x[(y:=0)]\n", "match x := x,:\n    case y as v,:\n        pass\n",
-        "(rf'a\\'b')\n", "\u05e2\u05b4\u05d1 = 1\n", "match x:\n    case x([[{}]]):\n        0\n",
+        "(rf'a\\'b')\n", "\u05e2\u05b4\u05d1 = 1\n", "y = [(x for o in x)]\n", "match x:\n    case x([[{}]]):\n        0\n",
         "def f(a, *args: T, **kw: T): pass\n", "def f(*args: T): pass\n", "def f(**kw: T): pass\n", "def f(*, a: T = 1): pass\n",
         "def f(a, /, b, *, c): pass\n", "def f(a=1, /, b=2, *c, d, e=3, **f) -> int: pass\n", "lambda a, /, b=1, *c, d, **e: 0\n",
         "with (a as b, c as d): pass\n", "with (a as b): pass\n", "with (a, b): pass\n", "with (a, b) as c: pass\n", "with a as b, c as d: pass\n",
